@@ -28,6 +28,7 @@ func concReport(c *CaseCtx, res *concResult, class string) {
 		}
 	}
 	c.Stat("final_read_transactions", res.finalReads)
+	c.Stat("merges_before_workload", res.preMerges)
 	for i, s := range res.finalBad {
 		if i < 3 {
 			k := strings.Index(s, "|")
@@ -58,13 +59,13 @@ func runC14(c *CaseCtx) {
 	if sparse {
 		class = "concurrent-with-sparse"
 	}
-	cc := concCfg{DBs: cfgs, Goroutines: gs, TxPerG: tier(c.Tier, 300, 600) / gs * 2, Shards: 1 + r.Intn(3), YieldP: []float64{0, 0.05, 0.3}[r.Intn(3)], Class: class}
+	cc := concCfg{DBs: cfgs, Goroutines: gs, TxPerG: tier(c.Tier, 300, 600) / gs * 2, Shards: 1 + r.Intn(3), YieldP: []float64{0, 0.05, 0.3}[r.Intn(3)], Class: class, PreMerge: c.Case%3 == 2}
 	if sparse {
 		// a sparse-mode read opens (and maps) a data file per key it touches: under the race detector such a
 		// case costs 5-10x a RAM-mode one, so it gets a third of the transactions instead of a longer deadline
 		cc.TxPerG = (cc.TxPerG + 2) / 3
 	}
-	c.Log("goroutines=%d dbs=%v shards=%d yield=%.2f", gs, cfgs, cc.Shards, cc.YieldP)
+	c.Log("goroutines=%d dbs=%v shards=%d yield=%.2f premerge=%v", gs, cfgs, cc.Shards, cc.YieldP, cc.PreMerge)
 	res := runConc(c, cc)
 	concReport(c, res, class)
 	checkLinearizable(c, res, class)
@@ -112,6 +113,19 @@ func runC18(c *CaseCtx) {
 	if err != nil {
 		c.Violate("open-failed:"+errClass(err.Error()), class, "Open failed: "+err.Error())
 		return
+	}
+	if cfg.Mode != 2 && c.Case%3 == 2 {
+		// a handle that has already merged successfully (see runConc)
+		val := make([]byte, int(cfg.Seg)/3)
+		for k := 0; k < 8; k++ {
+			db.Update(func(tx *nutsdb.Tx) error { return tx.Put("pre", []byte(fmt.Sprintf("p%d", k%3)), val, 0) })
+		}
+		func() {
+			defer func() { recover() }()
+			if db.Merge() == nil {
+				c.Stat("merges_before_workload", 1)
+			}
+		}()
 	}
 	// the script: ops[n] is executed by whichever writer finds seq == n
 	nOps := tier(c.Tier, 120, 300)
